@@ -34,7 +34,10 @@ impl Server {
             let raw_response = Server::bad_request_response(message);
             let boxed_stream = stream.write_all(raw_response.borrow());
             if boxed_stream.is_ok() {
-                stream.flush().unwrap();
+                let boxed_flush = stream.flush();
+                if boxed_flush.is_err() {
+                    eprintln!("unable to flush TCP stream {}", boxed_flush.err().unwrap());
+                }
             };
             return raw_response;
         }
@@ -54,7 +57,10 @@ impl Server {
             let raw_response = Server::bad_request_response(message);
             let boxed_stream = stream.write_all(raw_response.borrow());
             if boxed_stream.is_ok() {
-                stream.flush().unwrap();
+                let boxed_flush = stream.flush();
+                if boxed_flush.is_err() {
+                    eprintln!("unable to flush TCP stream {}", boxed_flush.err().unwrap());
+                }
             };
             return raw_response;
         }
@@ -70,7 +76,10 @@ impl Server {
 
         let boxed_stream = stream.write_all(raw_response.borrow());
         if boxed_stream.is_ok() {
-            stream.flush().unwrap();
+            let boxed_flush = stream.flush();
+            if boxed_flush.is_err() {
+                eprintln!("unable to flush TCP stream {}", boxed_flush.err().unwrap());
+            }
         };
 
         raw_response
@@ -117,7 +126,12 @@ impl Server {
             let raw_response = Server::bad_request_response(read_message.clone());
             let boxed_stream = stream.write_all(raw_response.borrow());
             if boxed_stream.is_ok() {
-                stream.flush().unwrap();
+                let boxed_flush = stream.flush();
+                if boxed_flush.is_err() {
+                    let flush_message = boxed_flush.err().unwrap().to_string();
+                    let combined_error = [read_message.clone(), SYMBOL.comma.to_string(), flush_message].join(SYMBOL.empty_string);
+                    return Err(combined_error);
+                }
             } else {
                 let write_message = boxed_stream.err().unwrap().to_string();
                 let combined_error = [read_message.clone(), SYMBOL.comma.to_string(), write_message].join(SYMBOL.empty_string);
@@ -141,7 +155,12 @@ impl Server {
             let raw_response = Server::bad_request_response(message.clone());
             let boxed_stream = stream.write_all(raw_response.borrow());
             if boxed_stream.is_ok() {
-                stream.flush().unwrap();
+                let boxed_flush = stream.flush();
+                if boxed_flush.is_err() {
+                    let flush_message = boxed_flush.err().unwrap().to_string();
+                    let combined_error = [message, SYMBOL.comma.to_string(), flush_message].join(SYMBOL.empty_string);
+                    return Err(combined_error);
+                }
             } else {
                 let write_message = boxed_stream.err().unwrap().to_string();
                 let combined_error = [message, SYMBOL.comma.to_string(), write_message].join(SYMBOL.empty_string);
@@ -160,7 +179,10 @@ impl Server {
 
             let boxed_stream = stream.write_all(response.borrow());
             if boxed_stream.is_ok() {
-                stream.flush().unwrap();
+                let boxed_flush = stream.flush();
+                if boxed_flush.is_err() {
+                    return Err(boxed_flush.err().unwrap().to_string());
+                }
             } else {
                 let write_message = boxed_stream.err().unwrap().to_string();
                 return Err(write_message);
@@ -178,7 +200,10 @@ impl Server {
 
         let boxed_stream = stream.write_all(raw_response.borrow());
         if boxed_stream.is_ok() {
-            stream.flush().unwrap();
+            let boxed_flush = stream.flush();
+            if boxed_flush.is_err() {
+                return Err(boxed_flush.err().unwrap().to_string());
+            }
         } else {
             let write_message = boxed_stream.err().unwrap().to_string();
             return Err(write_message);
